@@ -31,7 +31,7 @@ ASSUMPTIONS = ['island rows are compared with an independent 8-connected flood f
 MIN_REACH = {'source_finder:SourceFinder.find_sources_in_image': 1, 'source_finder:SourceFinder.priorized_fit_islands': 1,
              'source_finder:SourceFinder._refit_islands': 1, 'source_finder:SourceFinder.result_to_components': 1}
 MIN_COUNTERS = {'island_positions_checked': 10, 'priorized_inputs_off_image_or_on_blank': 3, 'rows_checked': 200, 'island_rows_checked': 10, 'reruns_compared': 10, 'priorized_runs': 3,
-                'fresh_process_reruns': 1, 'table_rows_checked': 20, 'db_rows_checked': 20, 'priorized_runs_catalogue_psf_larger_than_image_psf': 2, 'db_minus1_markers': 1, 'priorized_runs_from_a_table_without_uuid_column': 2, 'blind_runs_with_psf_map': 4, 'island_checks_with_flood_above_seed': 1, 'multi_component_islands_with_differing_psf': 3}
+                'fresh_process_reruns': 1, 'table_rows_checked': 20, 'db_rows_checked': 20, 'priorized_runs_catalogue_psf_larger_than_image_psf': 2, 'db_minus1_markers': 1, 'priorized_runs_from_a_table_without_uuid_column': 2, 'blind_runs_with_psf_map': 4, 'blind_runs_on_a_noise_map_with_a_step': 2, 'components_found_on_the_noise_step': 4, 'island_checks_with_flood_above_seed': 1, 'multi_component_islands_with_differing_psf': 3}
 BATCHES_PER_JOB = 4
 
 ISLAND_FIELDS = ['island', 'components', 'background', 'local_rms', 'ra_str', 'dec_str', 'ra', 'dec', 'peak_flux', 'int_flux',
@@ -76,6 +76,25 @@ def cases(seed, tier):
         out.append({'kind': 'blind', 'field': spec, 'max_summits': None, 'island': bool(i % 2), 'docov': bool(i % 3 == 0),
                     'fresh': i % 4 == 1, 'table': False, 'cores': 1,
                     'psfmap': {'n': [int(rng.integers(24, 40)), int(rng.integers(24, 40))], 'seed': int(rng.integers(0, 2 ** 31))}})
+    # a noise map with a step (file supplied): blends that straddle it hold a brighter summit BELOW the seed level in signal-to-
+    # noise and a fainter one above it - summits the finder has to skip in the middle of its component bookkeeping
+    for i in range(4 if tier == 'quick' else 40):
+        shape = (130, 140)
+        spec = fields.gen_field(rng, n_sources=0, shape=shape, tiny=0, nan_blocks=0, edge=0, noise=False)
+        spec['sources'], spec['spikes'], spec['noise'] = [], [], 0.0
+        beam_px = spec['beam'][0] / spec['scale']
+        ext = float(np.clip(12.0 / beam_px, 2.2, 3.5))           # extended sources, FWHM about 12 pixels: islands of ~100 pixels
+        bas = spec['beam'][0] * 3600 * ext
+        fw = beam_px * ext
+        for k in range(3):
+            row = 22.0 + 43.0 * k
+            sep = float(rng.uniform(1.0, 1.12)) * fw
+            # left member on the quiet side (rms 1): summit pixel at snr ~5.6-5.8; right member on the noisy side (rms 1.25):
+            # brighter summit pixel (~5.9-6.1) at snr ~4.7-4.9, i.e. below the seed level; one island (midpoint ~5.5 > 4 x 1.13)
+            spec['sources'].append({'index': [row, 70.0 - sep / 2], 'peak': float(rng.uniform(5.2, 5.4)), 'a': bas, 'b': bas, 'pa': 0.0, 'kind': 'step_left'})
+            spec['sources'].append({'index': [row, 70.0 + sep / 2], 'peak': float(rng.uniform(5.6, 5.8)), 'a': bas, 'b': bas, 'pa': 0.0, 'kind': 'step_right'})
+        out.append({'kind': 'blind', 'field': spec, 'max_summits': None, 'island': False, 'docov': bool(i % 2), 'fresh': False,
+                    'table': False, 'cores': 1, 'rms_step': {'at_col': 70, 'left': 1.0, 'right': 1.25, 'width': 1.5}})
     n_prior = 12 if tier == 'quick' else 120
     for i in range(n_prior):
         nsrc = int(rng.integers(22, 70))
@@ -110,9 +129,28 @@ def _blind(fn, case, rms):
         kw['imgpsf'] = psf_map_file(case, fn)
     if case.get('clips'):
         kw['innerclip'], kw['outerclip'] = case['clips']
+    if case.get('rms_step'):
+        kw['rmsin'], kw['bkgin'] = rms_step_files(case, fn)
+        srcs = sf.find_sources_in_image(fn, cores=1, docov=case['docov'], max_summits=case.get('max_summits'),
+                                        doislandflux=False, nonegative=False, nopositive=False, **kw)
+        return srcs
     srcs = sf.find_sources_in_image(fn, rms=rms, bkg=0.0, cores=1, docov=case['docov'], max_summits=case.get('max_summits'),
                                     doislandflux=case.get('island', False), nonegative=False, nopositive=False, **kw)
     return srcs
+
+
+def rms_step_files(case, fn):
+    """noise map with a smooth step between two levels, and a zero background map, next to the image file"""
+    rp, bp = fn[:-5] + '_steprms.fits', fn[:-5] + '_stepbkg.fits'
+    if not (os.path.exists(rp) and os.path.exists(bp)):
+        from astropy.io import fits
+        h, z, truth, img = fields.build(case['field'])
+        st = case['rms_step']
+        cols = np.arange(img.shape[1], dtype=float)
+        prof = st['left'] + (st['right'] - st['left']) / (1.0 + np.exp(-(cols - st['at_col']) / st['width']))
+        fits.PrimaryHDU(np.tile(prof, (img.shape[0], 1)).astype(np.float32), header=h).writeto(rp, overwrite=True)
+        fits.PrimaryHDU(np.zeros(img.shape, dtype=np.float32), header=h).writeto(bp, overwrite=True)
+    return rp, bp
 
 
 def psf_map_file(case, fn):
@@ -346,6 +384,9 @@ def run(case):
                 comps, isles = _rows(srcs)
                 o.n_eval += 1
                 o.count('own_runs')
+                if case.get('rms_step'):
+                    o.count('blind_runs_on_a_noise_map_with_a_step')
+                    o.count('components_found_on_the_noise_step', len(comps))
                 if case.get('psfmap'):
                     o.count('blind_runs_with_psf_map')
                     byi = {}
